@@ -1,11 +1,16 @@
 package main
 
-import "golang.org/x/tools/go/ssa"
+import (
+	"go/token"
+	"go/types"
+
+	"golang.org/x/tools/go/ssa"
+)
 
 func init() {
 	register(&Prop{
 		ID:         "C04",
-		Decided:    "(1) the four key encoders that partition rows (GroupAggregator.Add key, CountingWindow.getKey, extractSessionCompositeKey, GlobalWindow.getKeyAndValues) produce uniquely decodable keys: every raw component framed, NULL/missing distinct from every value, no impure input (keyenc); (2) function-expression group keys are injected before the row reaches Window.Add; (3) GetResults reports the typed key values recorded for the key it iterates.",
+		Decided:    "(1) the four key encoders that partition rows (GroupAggregator.Add key, CountingWindow.getKey, extractSessionCompositeKey, GlobalWindow.getKeyAndValues) produce uniquely decodable keys: every raw component framed, NULL/missing distinct from every value, no impure input (keyenc); (2) function-expression group keys are injected before the row reaches Window.Add; (3) GetResults reports the typed key values recorded for the key it iterates; (4) parser loops that track the parenthesis depth end a list item at a comma only at depth 0 (function keys with several arguments stay one key).",
 		NotDecided: "the values of function-expression keys; that cast.ToString/%v map distinct values of one scalar type to distinct strings (floats by shortest round-trip); output naming under aliases.",
 		Run:        runC04,
 	})
@@ -13,6 +18,7 @@ func init() {
 
 func runC04(a *A) {
 	a.Rule("keyenc/aggregator", 1, func() { a.keyencAggregator() })
+	a.Rule("shape/comma-at-depth-zero", 2, func() { a.ruleCommaAtDepthZero() })
 	a.Rule("keyenc/counting", 1, func() { a.keyencRule("window", "CountingWindow", "getKey", keyencOpts{}) })
 	a.Rule("keyenc/session", 1, func() { a.keyencRule("window", "", "extractSessionCompositeKey", keyencOpts{}) })
 	a.Rule("keyenc/global", 1, func() { a.keyencRule("window", "GlobalWindow", "getKeyAndValues", keyencOpts{}) })
@@ -84,4 +90,86 @@ func init() {
 			}
 		})
 	}
+}
+
+// ruleCommaAtDepthZero: a parser loop that tracks the parenthesis depth (a counter incremented on
+// TokenLParen and decremented on TokenRParen) and ends a list item at a comma must do so only at
+// depth 0: a comma inside the parentheses of a function call belongs to the item
+// (GROUP BY coalesce(a, b) was split into 'coalesce(a' and 'b)').
+func (a *A) ruleCommaAtDepthZero() int {
+	n := 0
+	tokT := a.Named("rsql", "TokenType")
+	consts := a.tokenConsts()
+	isTok := func(v ssa.Value, name string) bool {
+		k, ok := v.(*ssa.Const)
+		return ok && k.Value != nil && types.Identical(k.Type(), tokT) && k.Int64() == consts[name]
+	}
+	for _, fn := range a.ModFuncs {
+		if fn.Pkg != a.Pkg("rsql") || fn.Blocks == nil {
+			continue
+		}
+		// depth counters: int phis updated by +1 / -1 under LParen / RParen tests
+		depth := map[ssa.Value]bool{}
+		allInstrs(fn, func(in ssa.Instruction) {
+			bo, ok := in.(*ssa.BinOp)
+			if !ok || bo.Op != token.ADD && bo.Op != token.SUB || !isIntType(bo.Type()) {
+				return
+			}
+			k, ok := bo.Y.(*ssa.Const)
+			if !ok || k.Int64() != 1 {
+				return
+			}
+			lp := guardedByValue(bo.Block(), func(v ssa.Value) bool {
+				c, ok := v.(*ssa.BinOp)
+				return ok && c.Op == token.EQL && (isTok(c.Y, "TokenLParen") || isTok(c.Y, "TokenRParen"))
+			}, true)
+			if lp {
+				depth[bo.X] = true
+				depth[bo] = true
+			}
+		})
+		if len(depth) == 0 {
+			continue
+		}
+		isDepth := func(v ssa.Value) bool {
+			if depth[v] {
+				return true
+			}
+			for _, l := range phiLeaves(v) {
+				if depth[l] {
+					return true
+				}
+			}
+			return false
+		}
+		// blocks entered because the token is a comma
+		for _, b := range fn.Blocks {
+			iff, ok := b.Instrs[len(b.Instrs)-1].(*ssa.If)
+			if !ok {
+				continue
+			}
+			c, ok := iff.Cond.(*ssa.BinOp)
+			if !ok || c.Op != token.EQL || !isTok(c.Y, "TokenComma") {
+				continue
+			}
+			n++
+			// on the comma edge: either the depth is tested against 0 before anything is done, or the
+			// comma test itself is already guarded by such a test
+			okDepth := guardedByValue(b, func(v ssa.Value) bool {
+				d, ok := v.(*ssa.BinOp)
+				return ok && (d.Op == token.EQL || d.Op == token.LEQ) && isDepth(d.X) && isZeroConst(d.Y)
+			}, true)
+			if !okDepth {
+				succ := b.Succs[0]
+				if i2, ok := succ.Instrs[len(succ.Instrs)-1].(*ssa.If); ok && len(succ.Instrs) <= 3 {
+					if d, ok := i2.Cond.(*ssa.BinOp); ok && (d.Op == token.EQL || d.Op == token.LEQ) && isDepth(d.X) && isZeroConst(d.Y) {
+						okDepth = true
+					}
+				}
+			}
+			a.Check(okDepth, fname(fn)+"#comma-at-depth-zero", iff.Pos(), "an item ends at a comma only at parenthesis depth 0",
+				"the loop tracks the parenthesis depth but ends an item at every comma: a comma inside a function call's arguments splits the item in two unresolvable halves")
+		}
+	}
+	return n
 }
